@@ -74,7 +74,7 @@ def run(rep, tier, seed):
         rep.case(e, e.get("ev") != "retry" or any(x not in ("200",) for x in e.get("script", [])))
     rep.sample(events[5:7] + [e for e in events if e["ev"] == "matrix"][:2] + [e for e in events if e["ev"] == "proto"][:3])
     # casync-protocol stores in the chains the command line builds (a remote `pull` that lacks chunks, or dies)
-    cli_common.run(rep, vlib.workdir("C14-cli"), seed, "ssh", tier == "thorough")
+    cli_common.run(rep, vlib.workdir("C14-cli"), seed, "ssh,server", tier == "thorough")
     rep.rule = ("case = response script (all of length <= 3-4, sampled up to 8) x retry budget {0,1,2,3,5} x {chunk GET/HEAD/PUT, index GET/PUT}; "
                 "{client compressed?} x {server compressed?} x {upstream compressed?} x {verify?} x {GET, PUT}; casync protocol sessions (1 and 2 pooled "
                 "sessions: existing, missing, existing again, HasChunk missing/existing); distinct = different record; non-trivial = script contains a non-200 response, or matrix/protocol record")
@@ -84,6 +84,10 @@ def run(rep, tier, seed):
 
 
 def replay(path):
+    import json as _json
+    _r = cli_common.replay_if_cli(_json.load(open(path)), vlib.workdir("C14-cli-replay"))
+    if _r is not None:
+        return _r
     d = json.load(open(path))
     work = vlib.workdir("C14-replay")
     f = os.path.join(work, "trace.ndjson")
